@@ -7,12 +7,19 @@ invocation index of the faulted turn (singles; thorough: pairs), for every turn 
 Oracle: generate returns normally; the reply is a refusal / the fixed internal-error message and
 never contains the LLM text produced in that turn; in the following fault-free turn every
 configured rail is invoked again, in order, on that turn's texts.
+
+Further families (same oracle): the actions executed on a remote actions server, with the alphabet of server /
+network answers injected at every action site, Colang 1.0 and 2.x (c03_remote.py); Colang 2.x worlds whose input /
+output rails are the SHIPPED library flows with stub actions (c03_shipped.py) - signatures name the shipped rail
+whose action failed: `<what>:v2:shipped-<rail>-rail:<site>:<fault kind>`.
 """
 from __future__ import annotations
 
 import itertools
 
 from vf.props import railsworld as rw
+from vf.props import c03_remote as remote
+from vf.props import c03_shipped as shipped
 from vf.props.c01_v2 import reply_events
 
 PROP = "C03"
@@ -84,12 +91,34 @@ RAILS = {"single": (("in1",), ("out1",)), "double": (("in1", "in2"), ("out1", "o
          "libjb": (("in1",), ("out1",)),
          # "libself": Colang 2.x, the shipped `self check input` / `self check output` rails (their actions replaced by stubs)
          "libself": (("in1",), ("out1",))}
+# "remote": the actions run on an actions server (`actions_server_url`), see c03_remote
+# "ship:<in>|<out>": Colang 2.x, input / output rail = shipped library flows (or the stub rail "-"), see c03_shipped
 _RAILSET = ["single"]
 _PATH = ["free"]
 
 
+def rails_of(railset):
+    return RAILS.get(railset, (("in1",), ("out1",)))
+
+
 def build(version, dialog, exceptions):
-    ins, outs = RAILS[_RAILSET[0]]
+    ins, outs = rails_of(_RAILSET[0])
+    main = {"retry": V2_MAIN_RETRY, "say-result": V2_MAIN_SAY_RESULT}.get(_PATH[0], V2_MAIN_LOOKUP)
+    if _RAILSET[0].startswith("ship:"):
+        return shipped.build(*shipped.parse(_RAILSET[0]), exceptions, main)
+    if _RAILSET[0] == "remote":
+        if version == "2.x":
+            def factory(extra_yaml):
+                from vf.engines.world import World
+                colang = "import core\nimport guardrails\n" + rw.v2_rail("in1", "input") + rw.v2_rail("out1", "output")
+                colang += "\nflow input rails $input_text\n  in1 $input_text\n\nflow output rails $output_text\n  out1 $output_text\n" + main
+                w = World(colang, 'colang_version: "2.x"\n' + ("enable_rails_exceptions: True\n" if exceptions else "") + extra_yaml)
+                # (the actions have to be known locally as well; with an actions server the local bodies are not used)
+                w.rails.register_action(w._rail_action, name="VerifRailAction")
+                w.rails.register_action(w._dialog_action, name="VerifLookupAction")
+                return w
+            return remote.serve(factory)
+        return remote.serve(lambda extra_yaml: rw.v1_world(in_order=ins, out_order=outs, dialog=dialog, exceptions=exceptions, extra_yaml=extra_yaml))
     if version == "2.x":
         return rw.v2_world(in_order=ins, out_order=outs, dialog=False, exceptions=exceptions, library=("jailbreak" if _RAILSET[0] == "libjb" else (True if _RAILSET[0] == "libself" else False)), main={"retry": V2_MAIN_RETRY, "say-result": V2_MAIN_SAY_RESULT}.get(_PATH[0], V2_MAIN_LOOKUP))
     return rw.v1_world(in_order=ins, out_order=outs, dialog=dialog, exceptions=exceptions, param_rails=("both" if _RAILSET[0] == "param" else False))
@@ -101,10 +130,18 @@ def explore(task):
     _PATH[0] = path
     from vf.engines.world import World
     World.action_form = task[8] if len(task) > 8 else "async"
-    ins, outs = RAILS[_RAILSET[0]]
+    lite = len(task) > 9 and task[9] == "lite"      # singles only: no second fault in another turn, no fresh instance
+    ins, outs = rails_of(_RAILSET[0])
+    ship = _RAILSET[0].startswith("ship:")
     v2 = version == "2.x"
     res = {"worlds": 1, "conversations": 0, "faults_injected": 0, "faulted_turns_fail_closed": 0,
            "next_turns_checked": 0, "next_turn_spurious_refusals": 0, "action_sites": 0, "viol": []}
+    if ship:
+        res["shipped_rail_worlds"] = 1
+        res["shipped_rail_faults"] = 0
+    if _RAILSET[0] == "remote":
+        res["remote_action_worlds"] = 1
+        res["remote_action_faults"] = 0
     info0 = {"engine": "E3-world", "prop": "C03", "version": version, "dialog": dialog, "exceptions": exceptions, "path": path,
              "railset": _RAILSET[0], "action_form": World.action_form}
     world = build(version, dialog, exceptions)
@@ -121,6 +158,8 @@ def explore(task):
         ctx = {} if v2 else []
         out = []
         for t in range(1, turns + 1):
+            if lite and fault_turn is not None and t > fault_turn + 1:
+                break       # (the lite plan judges the faulted turn and the turn after it)
             user_text = f"U{t}x{nonce[0]}q hello"
             faults = ()
             if t == fault_turn:
@@ -174,7 +213,10 @@ def explore(task):
     # faults in two different turns of one conversation (the follow-up turn is then turn 3)
     second_plan = [((1, (i,)), (2, (j,))) for i in range(n_sites) for j in range(n_sites)] if turns >= 3 else []
     # the faulted turn (turn 2) served by a fresh instance: single faults, raise only
-    plan += [(2, (i,), "raise", True) for i in range(n_sites)]
+    if lite:
+        second_plan = []
+    else:
+        plan += [(2, (i,), "raise", True) for i in range(n_sites)]
     full_plan = [(ft, idx, kind, fresh, None, None) for ft, idx, kind, fresh in plan] + [(a[0], a[1], "raise", False, b, None) for a, b in second_plan]
     if _RAILSET[0] == "param":
         # turn 1 ends with a rejection by one of the rails, turn 2 has the fault, turn 3 is the follow-up
@@ -196,8 +238,24 @@ def explore(task):
                 if second is not None:
                     info["fault_indices"] = list(second[1])
 
+                if failed_sites and ship:
+                    res["shipped_rail_faults"] += 1
+                if failed_sites and _RAILSET[0] == "remote":
+                    res["remote_action_faults"] += 1
+
                 def bad(sig, what):
-                    if _RAILSET[0] == "libjb":
+                    if ship:
+                        # one signature per shipped rail and fault kind (the scheme of the jailbreak-heuristics findings)
+                        variant = "fresh-instance" if fresh else ("second-fault-after-a-hidden-turn" if second is not None else kind)
+                        if sig == "reply-not-refusal-or-internal-error" and not (ft.text or ""):
+                            # the turn ends without any bot message and without an exception event: the text is withheld, but
+                            # the reply is neither the refusal nor the internal-error message
+                            sig = "reply-empty-instead-of-refusal"
+                        name = shipped.slug(_RAILSET[0], failed_sites)
+                        flows = [shipped.SHIPPED[k][1] + " (" + shipped.SHIPPED[k][3] + ")" for k in name.split("+") if k in shipped.SHIPPED]
+                        res["viol"].append((f"{sig}:v2:shipped-{name}-rail:{'+'.join(failed_sites) or 'none'}:{variant}",
+                                            (f"shipped Colang 2.x rail `{'`, `'.join(flows)}`, action replaced by a stub, fault kind {kind}: " if flows else "") + what, info))
+                    elif _RAILSET[0] == "libjb":
                         variant = "fresh-instance" if fresh else ("second-fault-after-a-hidden-turn" if second is not None else kind)
                         res["viol"].append((f"{sig}:v2:shipped-jailbreak-heuristics-rail:{'+'.join(failed_sites) or 'none'}:{variant}", what, info))
                     elif fresh:
@@ -206,6 +264,8 @@ def explore(task):
                         res["viol"].append((f"{sig}:{'v2' if v2 else 'v1'}:{path}:second-fault-after-a-hidden-turn:{'+'.join(failed_sites) or 'none'}", what, info))
                     else:
                         form = "" if World.action_form == "async" else ":" + World.action_form + "-action"
+                        if _RAILSET[0] == "remote":
+                            form = ":remote-action"
                         res["viol"].append((f"{sig}:{'v2' if v2 else 'v1'}:{path}:{'+'.join(failed_sites) or 'none'}:{kind}{form}", what, info))
 
                 bad_turn = next((t for t in conv if t.exc is not None), None)
@@ -230,9 +290,13 @@ def explore(task):
                         bad("unchecked-llm-text-returned", f"rail action failed ({failed_sites}) but the reply contains the LLM text {leaked[0]!r}: {text!r}")
                     else:
                         ok_replies = {INTERNAL_ERROR, rw.LIB_REFUSAL} | {f"REFUSED-{r}" for r in ins + outs} | {f"EXC:BLOCKED-{r}" for r in ins + outs}
+                        if ship:
+                            ok_replies |= shipped.REFUSALS
                         evs = [e.get("type") for e in reply_events(ft.reply)] if v2 else []
                         parts_ok = path == "retry" and all(part in ok_replies or part in approved for part in text.split("\n"))
-                        if text in ok_replies or parts_ok or (v2 and exceptions and any(e.endswith("RailException") for e in evs)):
+                        # (the shipped rails name their exception events ...RailException or ...Exception)
+                        exc_suffix = "Exception" if ship else "RailException"
+                        if text in ok_replies or parts_ok or (v2 and exceptions and any(str(e).endswith(exc_suffix) for e in evs)):
                             res["faulted_turns_fail_closed"] += 1
                         else:
                             bad("reply-not-refusal-or-internal-error", f"rail action failed ({failed_sites}); reply {text!r} events {evs}")
@@ -468,9 +532,21 @@ define bot ask if still there
     return res
 
 
+def explore_conformance(task):
+    """binds the in-process stand-in of the actions server to the real aiohttp client (c03_remote.conformance)"""
+    n, bad, note = remote.conformance()
+    res = {"remote_stand_in_answers_compared_with_real_client": n, "viol": [], "note": note}
+    for b in bad:
+        res["viol"].append(("harness:remote-stand-in-differs-from-the-real-client:" + b.split(":")[0] + (":" + b.split(":")[1] if b.startswith("srv:") else ""), b,
+                            {"engine": "E3-world", "prop": "C03", "scenario": "remote-conformance"}))
+    return res
+
+
 def dispatch(task):
     from vf.engines.world import World
     World.action_form = "async"
+    if task[0] == "remote-conformance":
+        return explore_conformance(task)
     if task[0] == "extra":
         return explore_extra(task)
     if task[0] == "audit":
@@ -512,6 +588,20 @@ def tasks(tier):
                 out.append(w + (turns, tier == "thorough", ("raise", "none") if tier == "thorough" else ("raise",), "single", form))
     out.append(("audit", False, 3 if tier == "quick" else 4, kinds))
     out.append(("extra",))
+    thorough = tier == "thorough"
+    lite = () if thorough else ("lite",)
+    # ---- the actions run on a remote actions server: the alphabet of server / network answers at every action site
+    #      (quick: singles; thorough: + pairs, a second fault in another turn, a fresh instance)
+    for exc in (False, True):
+        for w in (("1.0", False, exc, "general"), ("1.0", True, exc, "lookup"), ("2.x", False, exc, "free")) + ((("2.x", False, exc, "say-result"),) if thorough else ()):
+            # (quick: one non-200 status; 404 takes the same branch of the client as 500)
+            out.append(w + (turns, thorough, tuple(k for k in remote.REMOTE_KINDS if thorough or k != "srv:404"), "remote", "async") + lite)
+    out.append(("remote-conformance",))
+    # ---- the shipped Colang 2.x library rails, their actions replaced by stubs
+    for exc in (False, True):
+        for i, o in shipped.worlds(tier):
+            # (singles, as for the other library worlds: after a failing input rail nothing else of the turn is reached)
+            out.append(("2.x", False, exc, "free", turns, False, ("raise", "none"), shipped.railset(i, o), "async") + lite)
     return out
 
 
@@ -522,6 +612,8 @@ def run(rep, tier):
     ts = tasks(tier)
     agg = {}
     for r in par.pmap(dispatch, ts):
+        if r.get("note"):
+            rep.assumptions.append(r["note"])
         for k, v in r.items():
             if isinstance(v, int):
                 agg[k] = agg.get(k, 0) + v
@@ -532,6 +624,8 @@ def run(rep, tier):
     rep.set("evaluations", agg.get("conversations", 0))
     rep.set("distinct_nontrivial", agg.get("faulted_turns_fail_closed", 0) + agg.get("next_turns_checked", 0))
     rep.set("rule", "worlds {v1 general, v1 dialog LLM path, v1 dialog action path, v2} x exceptions on/off x fault turn x every action invocation index (pairs and return-None faults in thorough); "
+                    "the same with the actions executed on an actions server x the server answers {200 failed, 200 null, 500, 404, HTML page, broken JSON, connection refused, timeout}; "
+                    "Colang 2.x worlds over the shipped library rails (each with a stub rail on the other side + the input/output pairs of one library; thorough: full product) x raise / return-None at every action site; "
                     "non-trivial = faulted rail turns that failed closed + follow-up turns checked")
     rep.set("exhaustive", True)
     rep.assumptions += [
@@ -539,12 +633,16 @@ def run(rep, tier):
         "a spurious refusal in the follow-up turn is recorded (next_turn_spurious_refusals), not reported: the statement demands containment and active rails",
     ]
     rep.sample({"world": "v1 dialog lookup", "sites": ["in1", "verif_lookup", "out1"], "fault": "raise at site 1 in turn 1"})
+    rep.sample({"world": "v2, actions on an actions server", "sites": ["in1", "verif_lookup", "out1"], "fault": "the server answers HTTP 500 for the call of site 0 in turn 2"})
+    rep.sample({"world": "v2, shipped rails `llama guard check input` / `llama guard check output` (stub actions)", "sites": ["in1", "verif_lookup", "out1"],
+                "fault": "LlamaGuardCheckOutputAction raises in turn 1, after the input check of the same turn allowed"})
 
 
 def replay(rp):
     from vf.engines.world import World
     World.action_form = rp.get("action_form", "async")
     _RAILSET[0] = rp.get("railset", "single")
+    _PATH[0] = rp.get("path", "free")
     world = build(rp["version"], rp["dialog"], rp["exceptions"])
     v2 = rp["version"] == "2.x"
     fn = llm_fn_for(rp["path"], rp["version"])
